@@ -24,18 +24,33 @@ def is_accumulator(attr):
     return attr in ACCUMULATORS or attr.endswith('_all_subsets')
 
 
-def rule_r1(repo):
-    rr = RuleResult('C06.R1', 'every register written by the template walk is reset at the subset switch')
-    init = repo.own_method('CoderState', '__init__')
+def _mutable(v):
+    from sa.patheval import Obj, Native
+    return isinstance(v, (list, dict, Native)) or (isinstance(v, Obj) and v.cls not in ('BSRModifier',))
+
+
+def _dirty(st, attr):
+    """Leave the trace a previous subset would leave in register `attr` (in place for containers, so a reset by clearing counts too)."""
+    from sa.patheval import Tok
+    v = st.fields.get(attr)
+    if isinstance(v, list):
+        v.append(Tok('left-by-previous-subset:' + attr))
+    elif isinstance(v, dict):
+        v[Tok('left-by-previous-subset:' + attr)] = 1
+    else:
+        st.fields[attr] = Tok('left-by-previous-subset:' + attr)
+
+
+def rule_r1(repo, rule='C06.R1'):
+    """Folds CoderState.__init__ and switch_subset_context (PathEval): a state dirtied in every register the template walk can
+    write is switched to the next subset and compared, register by register, with a fresh state; container registers must also
+    be new objects at each switch (a shared default object would carry appended entries over)."""
+    from sa.patheval import freeze
+    from sa.rules.walk import WalkInterp, fold_init
+    rr = RuleResult(rule, 'every register written by the template walk is reset at the subset switch (fold of __init__ and switch_subset_context)')
     switch = repo.own_method('CoderState', 'switch_subset_context')
     if len(switch.params) < 2:
         raise AnalysisError('switch_subset_context takes no subset index')
-    idx_param = switch.params[1]
-    I = init_assignments(init)
-    S = {}
-    for f in self_helper_closure(repo, switch, 'CoderState'):
-        for a, vals in init_assignments(f).items():
-            S.setdefault(a, []).extend(vals)
     W = {}
     nreach = 0
     for entry in ('Decoder', 'Encoder'):
@@ -43,71 +58,137 @@ def rule_r1(repo):
         nreach = max(nreach, len(reach))
         for a, sites in w.items():
             W.setdefault(a, []).extend(sites)
-    rr.extra = {'init_registers': len(I), 'written_by_walk': sorted(W), 'reset_at_switch': sorted(S),
-                'functions_reached': nreach}
-    if len(I) < 23:
-        raise AnalysisError('CoderState.__init__ initialises %d registers, fewer than the 23 confirmed by hand' % len(I))
+    n_sub = 3
+    fresh_states = fold_init(repo, False, n_sub)
+    regs = sorted(a for a in W if not is_accumulator(a))
+    rr.extra = {'written_by_walk': sorted(W), 'functions_reached': nreach, 'init_paths': len(fresh_states)}
+    if len(regs) < 18:
+        raise AnalysisError('the template walk writes %d registers, fewer than the 18 confirmed by hand' % len(regs))
     for attr in sorted(W):
         fi0, n0, kind0 = W[attr][0]
-        site = '%s (%s, %s:%d)' % (fi0.qualname, kind0, fi0.module.relpath, n0.lineno)
         if is_accumulator(attr):
             rr.instance('%s: whole-message accumulator (exempt)' % attr)
-            continue
-        rr.instance('%s written by %s' % (attr, site))
-        if attr not in I and attr not in S:
-            rr.fail('CoderState.%s' % attr, switch.where,
-                    'attribute %s is written by the template walk (%s) but neither initialised in '
-                    'CoderState.__init__ nor reset in switch_subset_context: its value leaks from one subset '
-                    'into the next' % (attr, site))
-            continue
-        if attr not in S:
-            rr.fail('CoderState.%s' % attr, switch.where,
-                    'register %s is written by the template walk (%s) and initialised in __init__ but not '
-                    're-initialised by switch_subset_context: subset k starts with the value subset k-1 left' % (attr, site),
-                    witness={'writers': ['%s:%s' % (f.qualname, k) for f, _, k in W[attr][:6]]})
-            continue
-        # the reset must restore the initial value
-        if attr + '_all_subsets' in I:
-            ok = any(norm(v) == 'self.%s_all_subsets[%s]' % (attr, idx_param) for v in S[attr])
-            want = 'self.%s_all_subsets[%s]' % (attr, idx_param)
-        elif attr == 'idx_subset':
-            ok = any(norm(v) == idx_param for v in S[attr])
-            want = idx_param
-        elif attr in I:
-            ok = any(same_ast(v, i) or same_value(repo, v, i) for v in S[attr] for i in I[attr])
-            want = ' | '.join(sorted(set(norm(i) for i in I[attr])))
-        else:
-            ok = True
-            want = ''
-        if not ok:
-            rr.fail('CoderState.%s:init' % attr, switch.where,
-                    'switch_subset_context assigns %s = %s but a fresh state has %s' % (
-                        attr, ' | '.join(norm(v) for v in S[attr]), want))
+    n_init = len(fresh_states)
+    for k in range(n_init):
+        it = WalkInterp(repo, 'Decoder')
+        captured = {}
+
+        def mk():
+            st = fold_init(repo, False, n_sub)[k]
+            for a in regs:
+                if a not in st.fields:
+                    continue
+                if a + '_all_subsets' in st.fields:
+                    continue            # subset 0's own record: subset 1 must get its own (identity checked below)
+                _dirty(st, a)
+            st.fields['idx_value'] = 7
+            captured['state'] = st
+            return {'self': st, switch.params[1]: 1}
+
+        res = it.run_function(switch, mk, self_class='CoderState')
+        ok_res = [r for r in res if r.ok]
+        if not ok_res:
+            raise AnalysisError('switch_subset_context could not be folded: %s' % [r.describe() for r in res][:2])
+        for r in ok_res:
+            st = r.locals['self']
+            fresh = fold_init(repo, False, n_sub)[k]
+            first = dict(st.fields)
+            # a second switch, to the following subset, for the identity obligations
+            it2 = WalkInterp(repo, 'Decoder')
+            it2.__dict__['_module_values'] = it.__dict__.get('_module_values', {})
+            res2 = [x for x in it2.run_function(switch, lambda: {'self': st, switch.params[1]: 2}, self_class='CoderState') if x.ok]
+            if not res2:
+                raise AnalysisError('second switch_subset_context could not be folded')
+            second = res2[0].locals['self'].fields
+            for attr in regs:
+                fi0, n0, kind0 = W[attr][0]
+                site = '%s (%s, %s:%d)' % (fi0.qualname, kind0, fi0.module.relpath, n0.lineno)
+                if k == 0:
+                    rr.instance('%s written by %s' % (attr, site))
+                if attr not in first:
+                    rr.fail('CoderState.%s' % attr, switch.where,
+                            'attribute %s is written by the template walk (%s) but neither initialised in CoderState.__init__ '
+                            'nor reset in switch_subset_context: its value leaks from one subset into the next' % (attr, site))
+                    continue
+                if attr + '_all_subsets' in first:
+                    al = first[attr + '_all_subsets']
+                    if not (isinstance(al, list) and len(al) == n_sub and first[attr] is al[1]):
+                        rr.fail('CoderState.%s:init' % attr, switch.where,
+                                'after switch_subset_context(1) register %s is not the record of subset 1 (%s_all_subsets[1])' % (attr, attr))
+                    elif second[attr] is not second[attr + '_all_subsets'][2]:
+                        rr.fail('CoderState.%s:init' % attr, switch.where,
+                                'after switch_subset_context(2) register %s is not the record of subset 2' % attr)
+                    continue
+                if attr == 'idx_subset':
+                    if first[attr] != 1 or second[attr] != 2:
+                        rr.fail('CoderState.idx_subset:init', switch.where, 'switch_subset_context(k) leaves idx_subset = %r' % (first[attr],))
+                    continue
+                want = fresh.fields.get(attr)
+                if attr not in fresh.fields:
+                    # never initialised: it must at least not keep the previous subset's value
+                    want = first[attr]
+                if freeze(first[attr]) != freeze(want) or 'left-by-previous-subset' in repr(first[attr]):
+                    how = 'keeps what the previous subset left' if 'left-by-previous-subset' in repr(first[attr]) else \
+                        'is %r where a fresh state has %r' % (first[attr], want)
+                    rr.fail('CoderState.%s' % attr if 'left-by' in repr(first[attr]) else 'CoderState.%s:init' % attr, switch.where,
+                            'register %s is written by the template walk (%s); after switch_subset_context it %s: subset k starts '
+                            'with a value subset k-1 determined' % (attr, site, how),
+                            witness={'writers': ['%s:%s' % (f.qualname, kk) for f, _, kk in W[attr][:6]]})
+                    continue
+                if _mutable(first[attr]) and first[attr] is second[attr]:
+                    rr.fail('CoderState.%s:shared' % attr, switch.where,
+                            'switch_subset_context installs the same %s object in register %s at every subset switch: what the walk '
+                            'appends to it in one subset (%s) is still there in the next' % (type(first[attr]).__name__, attr, site))
     rr.require_floor(20)
     return rr
 
 
-def same_value(repo, a, b):
-    """Two initialiser expressions denote the same fresh value (e.g. BSRModifier(0, 0, 1) vs keyword form, a module constant vs its literal)."""
-    from sa.patheval import Frame, Path, Obj
-    from sa.rules.walk import WalkInterp, snapshot
-    m = repo.module('coder')
-    it = WalkInterp(repo, 'Decoder')
-    it.path = Path([])
-    out = []
-    for e in (a, b):
-        try:
-            fr = Frame(None, m, 'CoderState', 0)
-            v = it.ev(e, fr)
-        except Exception:
-            return False
-        if isinstance(v, Obj):
-            out.append((v.cls, tuple(sorted((k, repr(x)) for k, x in v.fields.items()))))
-        elif isinstance(v, (list, dict)):
-            out.append((type(v).__name__, repr(v)))
-        else:
-            out.append(repr(v))
-    return out[0] == out[1] and 'Top' not in str(out[0])
+def rule_alias(repo, rule='C05.R3', modes=(False, True)):
+    """Folds CoderState.__init__ and TemplateData.__init__: the per-subset records are one shared object when compressed
+    (descriptors, bitmap links, nodes) and distinct objects otherwise; the value lists are distinct in both modes."""
+    from sa.patheval import Interp, Obj
+    from sa.rules.walk import fold_init
+    rr = RuleResult(rule, 'per-subset records: one object per subset when uncompressed, one shared object when compressed (fold of the two __init__)')
+
+    def judge(owner, where, comp, n, attr, al, cur, values_like):
+        key = '%s.%s_all_subsets:%s' % (owner, attr, 'compressed' if comp else 'uncompressed')
+        rr.instance('%s n_subsets=%d' % (key, n))
+        if not isinstance(al, list) or len(al) != n:
+            rr.fail(key + ':length', where, '%s_all_subsets does not hold one record per subset for n_subsets=%d: %r' % (attr, n, al))
+            return
+        shared = any(al[i] is al[j] for i in range(n) for j in range(i))
+        all_shared = all(al[i] is al[0] for i in range(n))
+        if comp and not values_like:
+            if not all_shared:
+                rr.fail(key, where, 'compressed: the %s records of the subsets are not one shared object, so what the single template walk '
+                        'records is missing from the other subsets' % attr)
+        elif shared:
+            rr.fail(key, where, '%s: two subsets share one %s record: what one subset appends shows up in the other' % (
+                'compressed' if comp else 'uncompressed', attr))
+        if cur is not al[0]:
+            rr.fail(key + ':first', where, 'a fresh object does not start on the record of subset 0 for %s' % attr)
+
+    init = repo.own_method('CoderState', '__init__')
+    tinit = repo.own_method('TemplateData', '__init__')
+    for comp in modes:
+        for n in (2, 3):
+            for st in fold_init(repo, comp, n):
+                for attr in ('decoded_descriptors', 'bitmap_links', 'decoded_values'):
+                    judge('CoderState', init.where, comp, n, attr, st.fields.get(attr + '_all_subsets'), st.fields.get(attr), attr == 'decoded_values')
+            res = Interp(repo, 'TemplateData').run_function(tinit, lambda: {
+                'self': Obj('TemplateData', {}), 'template': Obj('BufrTemplate', {'members': []}), 'is_compressed': comp,
+                'decoded_descriptors_all_subsets': [[] for _ in range(n)], 'decoded_values_all_subsets': [[] for _ in range(n)],
+                'bitmap_links_all_subsets': [{} for _ in range(n)]}, self_class='TemplateData')
+            oks = [r for r in res if r.ok]
+            if not oks:
+                raise AnalysisError('TemplateData.__init__ could not be folded')
+            for r in oks:
+                td = r.locals['self']
+                judge('TemplateData', tinit.where, comp, n, 'decoded_nodes', td.fields.get('decoded_nodes_all_subsets'), td.fields.get('decoded_nodes'), False)
+                if td.fields.get('_is_wired') is not False:
+                    rr.fail('TemplateData.__init__:is_wired', tinit.where, '_is_wired is not initialised to False')
+    rr.require_floor(8 * len(modes))
+    return rr
 
 
 def rule_r2_structural(repo):
@@ -178,26 +259,7 @@ WIRE_EXEMPT = {
 }
 
 
-def rule_r3(repo):
-    rr = RuleResult('C06.R3', 'every wiring register is re-initialised at the top of each subset iteration of wire()')
-    wire = repo.own_method('TemplateData', 'wire')
-    loops = [n for n in ast.walk(wire.node) if isinstance(n, ast.For)]
-    if len(loops) != 1:
-        raise AnalysisError('TemplateData.wire: expected exactly one subset loop')
-    loop = loops[0]
-    # statements before the wire_members call
-    reset = {}
-    idx_call = None
-    for i, s in enumerate(loop.body):
-        if any(isinstance(c, ast.Call) and norm(c.func) == 'self.wire_members' for c in ast.walk(s)):
-            idx_call = i
-            break
-        if isinstance(s, ast.Assign):
-            for t in s.targets:
-                if isinstance(t, ast.Attribute) and isinstance(t.value, ast.Name) and t.value.id == 'self':
-                    reset[t.attr] = s.value
-    if idx_call is None:
-        raise AnalysisError('TemplateData.wire: no self.wire_members(...) call in the subset loop')
+def wiring_registers(repo):
     cg = CallGraph(repo, 'TemplateData')
     reach = cg.reachable([repo.own_method('TemplateData', 'wire_members')])
     W = {}
@@ -207,27 +269,103 @@ def rule_r3(repo):
         eff = effects(fi)
         for a, nodes in list(eff.writes.get('self', {}).items()) + list(eff.mutates.get('self', {}).items()):
             W.setdefault(a, []).append((fi, nodes[0]))
-    rr.extra = {'written_by_wiring': sorted(W), 'reset_per_subset': sorted(reset)}
-    for a in sorted(W):
-        fi0, n0 = W[a][0]
-        rr.instance('%s written by %s' % (a, fi0.qualname))
-        if a in reset:
-            continue
-        if a in WIRE_EXEMPT:
-            continue
-        rr.fail('TemplateData.%s' % a, wire.where,
-                'wiring register %s is written by %s but not re-initialised per subset in wire(): the structure '
-                'built for subset k depends on subset k-1' % (a, fi0.qualname))
-    # flags and counters must be reset to a constant / fresh container, not carried
-    for a, v in sorted(reset.items()):
-        if a in W and not isinstance(v, (ast.Constant, ast.List, ast.Dict, ast.Call, ast.Subscript)):
-            rr.fail('TemplateData.%s:init' % a, wire.where, 'per-subset initialiser of %s is %s' % (a, norm(v)))
-    rr.require_floor(6)
+    return W
+
+
+RECORDS = ('decoded_nodes', 'decoded_descriptors', 'decoded_values', 'bitmap_links')
+
+
+def rule_r3(repo, rule='C06.R3', modes=(False,)):
+    """Folds TemplateData.wire() over three uncompressed subsets of identical layout with the walk replaced by a stub that
+    records the registers it is entered with and then leaves every one of them dirty: each subset must be walked, on its own
+    records, with the registers the first subset started with."""
+    from sa.patheval import Interp, Obj, Tok, Top, freeze
+    rr = RuleResult(rule, 'every subset is wired by its own walk, on its own records, from re-initialised wiring registers (fold of wire())')
+    wire = repo.own_method('TemplateData', 'wire')
+    W = wiring_registers(repo)
+    regs = sorted(a for a in W if a not in WIRE_EXEMPT and a not in RECORDS)
+    rr.extra = {'written_by_wiring': sorted(W), 'registers_checked': regs}
+    if len(regs) < 6:
+        raise AnalysisError('the wiring walk writes %d registers, fewer than the 6 confirmed by hand' % len(regs))
+
+    class WI(Interp):
+        def on_call(self2, text, callee, args, kwargs, node, frame):
+            if text == 'self.wire_members':
+                me = frame.locals['self']
+                snap = {}
+                for a in regs:
+                    snap[a] = freeze(me.fields[a]) if a in me.fields else '<unset>'
+                ident = {}
+                for a in RECORDS:
+                    al = me.fields.get(a + '_all_subsets')
+                    cur = me.fields.get(a)
+                    ident[a] = [i for i, x in enumerate(al) if x is cur] if isinstance(al, list) else None
+                self2.event('walk', snap, ident)
+                for a in regs:
+                    if a in me.fields:
+                        _dirty(me, a)
+                    else:
+                        me.fields[a] = Tok('left-by-previous-subset:' + a)
+                return None
+            if text in ('functools.partial', 'itertools.count'):
+                return Top(text)
+            return self2.NOT_HANDLED
+
+    for comp in modes:
+        n = 3
+        d = Tok('same-layout')
+
+        def mk():
+            nodes = [[]] * n if comp else [[] for _ in range(n)]
+            descs = [[d]] * n if comp else [[d] for _ in range(n)]
+            links = [{}] * n if comp else [{} for _ in range(n)]
+            return {'self': Obj('TemplateData', {
+                '_is_wired': False, 'is_compressed': comp, 'n_subsets': n, 'template': Obj('BufrTemplate', {'members': []}),
+                'decoded_nodes_all_subsets': nodes, 'decoded_descriptors_all_subsets': descs,
+                'decoded_values_all_subsets': [[1] for _ in range(n)], 'bitmap_links_all_subsets': links})}
+
+        res = WI(repo, 'TemplateData').run_function(wire, mk, self_class='TemplateData')
+        mode = 'compressed' if comp else 'uncompressed'
+        for r in res:
+            if not r.ok:
+                rr.fail('TemplateData.wire:raises', wire.where, 'wire() raises %s on %s data' % (r.exc.cls, mode))
+                continue
+            walks = [e for e in r.events if e[0] == 'walk']
+            want = 1 if comp else n
+            rr.instance('wire() %s, %d subsets of equal layout: %d walk(s)' % (mode, n, len(walks)))
+            if len(walks) != want:
+                rr.fail('TemplateData.wire:walks:%s' % mode, wire.where,
+                        'wire() walks the template %d time(s) for %d %s subsets of equal layout (expected %d): %s' % (
+                            len(walks), n, mode, want,
+                            'a subset takes over what was built for another one' if len(walks) < want else 'nodes are appended more than once'))
+                continue
+            for k, (_, snap, ident) in enumerate(walks):
+                for a in RECORDS:
+                    exp = list(range(n)) if (comp and a != 'decoded_values') else [k]
+                    if ident[a] != exp:
+                        rr.fail('TemplateData.wire:record:%s' % a, wire.where,
+                                '%s: the walk of subset %d runs on %s of subset(s) %s' % (mode, k, a, ident[a]))
+                for a in regs:
+                    if k == 0:
+                        fi0, n0 = W[a][0]
+                        rr.instance('%s written by %s' % (a, fi0.qualname))
+                    if snap[a] == '<unset>' and k == 0:
+                        rr.fail('TemplateData.%s' % a, wire.where,
+                                'wiring register %s is written by %s but not initialised by wire() before the walk' % (a, W[a][0][0].qualname))
+                    elif 'left-by-previous-subset' in repr(snap[a]):
+                        rr.fail('TemplateData.%s' % a, wire.where,
+                                'wiring register %s is written by %s but not re-initialised per subset in wire(): the structure '
+                                'built for subset %d depends on subset %d' % (a, W[a][0][0].qualname, k, k - 1))
+                    elif snap[a] != walks[0][1][a]:
+                        rr.fail('TemplateData.%s:init' % a, wire.where,
+                                'wiring register %s starts subset %d as %r but subset 0 as %r' % (a, k, snap[a], walks[0][1][a]))
+    rr.require_floor(7)
     return rr
 
 
 def run(repo, check):
     check.run_rule(rule_r1, repo)
+    check.run_rule(rule_alias, repo, 'C06.R5', (False,))
     from sa.rules import c05
     check.run_rule(c05.rule_state_mode, repo, 'C06.R2')
     check.run_rule(rule_r3, repo)
